@@ -41,16 +41,21 @@ let search (ths : op list list) (r0 : reg) : reg list * int =
   let finals = Hashtbl.create 64 in
   let dead = ref 0 in
   let q = Queue.create () in
-  let key c = Marshal.to_string c [Marshal.No_sharing] in
+  (* the ghost lists are used as sets (membership / lookup by a unique key): configurations that differ only in their
+     order are explored once *)
+  let canon (r : reg) : reg = { r with closed = List.sort_uniq compare r.closed; cancelled = List.sort_uniq compare r.cancelled;
+                                       seen_prev = List.sort_uniq compare r.seen_prev; got = List.sort_uniq compare r.got;
+                                       delivered = List.sort_uniq compare r.delivered; marks = List.sort_uniq compare r.marks } in
+  let key (c : op list list * reg) = Marshal.to_string (fst c, canon (snd c)) [Marshal.No_sharing] in
   Queue.add (ths, r0) q; Hashtbl.replace seen (key (ths, r0)) ();
   while not (Queue.is_empty q) do
     let c = Queue.pop q in
     (match picks [] (fst c) with
-     | [] -> Hashtbl.replace finals (key (snd c)) (snd c)
+     | [] -> Hashtbl.replace finals (Marshal.to_string (canon (snd c)) [Marshal.No_sharing]) (snd c)
      | _ ->
        let ss = succs c in
        if ss = [] then incr dead;
-       List.iter (fun c' -> let k = key c' in if not (Hashtbl.mem seen k) then (Hashtbl.replace seen k (); Queue.add c' q)) ss)
+       List.iter (fun (t', r') -> let c' = (t', canon r') in let k = key c' in if not (Hashtbl.mem seen k) then (Hashtbl.replace seen k (); Queue.add c' q)) ss)
   done;
   (Hashtbl.fold (fun _ v acc -> v :: acc) finals [], !dead)
 let total ths = List.fold_left (fun n t -> n + List.length t) 0 ths
@@ -81,7 +86,7 @@ let () =
             let outs = List.sort_uniq compare (List.map state fs) in
             List.iter (fun s -> Printf.printf "OUT %s\n" s) outs;
             Printf.printf "DEADLOCKS %d\n" dead;
-            if total ths <= 16 then begin
+            if total ths <= 12 then begin
               let outs2 = List.sort_uniq compare (List.map state (outcomes ths r0)) in
               if outs2 <> outs || List.length (deadlocks (nat_of_int 200) [(ths, r0)]) <> dead then print_endline "UNKNOWN search and outcomes disagree"
             end
